@@ -123,6 +123,27 @@ DAILY_INVALID = {
     "season.march": ["spring"],
     "weekday_weekend.monday": ["holiday"],
 }
+# season / weekday maps: every month and every day x near misses of the option names (fragments, concatenations, empty, separators,
+# wrong types) - a value is valid only if it IS one of the options
+def _near_misses(options):
+    out = ["", " ", ",", ", ", "-", "none", 0, 1.5, True, ["%s" % options[0]], {"a": 1}]
+    for o in options:
+        out += [o[:2], o[:3], o[:-1], o[1:], o + "s", o + ",", o.replace("e", "", 1), o[::-1]]
+    out += [", ".join(options), ",".join(options[:2]), " ".join(options), options[0] + options[-1]]
+    seen, res = set(), []
+    for v in out:
+        k = repr(v)
+        if k not in seen and not (isinstance(v, str) and v.strip().lower() in options):
+            seen.add(k)
+            res.append(v)
+    return res
+
+
+for _m in [k for k in SEASON if k != "options"]:
+    DAILY_INVALID["season.%s" % _m] = _near_misses(["summer", "shoulder", "winter"]) + ["spring"]
+for _d in [k for k in WEEK if k != "options"]:
+    DAILY_INVALID["weekday_weekend.%s" % _d] = _near_misses(["weekday", "weekend"]) + ["holiday"]
+
 # cross-field: (settings, must be rejected?)
 DAILY_CROSS = [
     ({"alpha_final": None}, True),                                              # alpha_final_type stays 'last'
